@@ -410,7 +410,7 @@ def line_lifetime(P, R):
     for s in frees:
         R.ob('C08.MPT.2', True, s, 'free(%s) reached only while the line is owned; aliases %s dead afterwards' % (line, sorted(alias - {line})),
              key='free-site')
-    R.floor('C08.MPT.2', 2, 'free sites of the line buffer')
+    R.floor('C08.MPT.2', 1, 'free sites of the line buffer')
 
 
 def junk_inert(P, R, rule='C08.GRD.1'):
